@@ -196,6 +196,30 @@ func distract(st ref.Stamp, n int) {
 	l.GetFu()
 	s.GetFestivals()
 	_ = s.ToFullString() + l.ToFullString()
+	if n%2 == 0 {
+		prodCache(st.Y)
+	}
+}
+
+// prodCache makes year y the cached year and then asks the cached year object and every month object in its table
+// all their zero-argument questions (printing them included), the way a caller inspecting the year would. These are
+// the very objects the next conversion of a date in year y is computed from: a "read-only" accessor that edits them
+// (filters a list in place, normalises a field while printing, memoises into them) corrupts that conversion.
+func prodCache(y int) {
+	if y < minYear || y > maxYear {
+		return
+	}
+	ly := calendar.NewLunarYear(y)
+	digest1(ly)
+	for e := ly.GetMonths().Front(); e != nil; e = e.Next() {
+		if m, ok := e.Value.(*calendar.LunarMonth); ok && m != nil {
+			digest1(m)
+		}
+	}
+	for e := ly.GetMonthsInYear().Front(); e != nil; e = e.Next() {
+		_ = fmt.Sprint(e.Value)
+	}
+	calendar.NewLunarYear(y)
 }
 
 func absInt(a int) int {
